@@ -1263,4 +1263,208 @@ class C20(Oracle):
         return out
 
 
-ORACLES = {'C18': C18, 'C08': C08, 'C09': C09, 'C10': C10, 'C11': C11, 'C12': C12, 'C05': C05, 'C06': C06, 'C07': C07, 'C04': C04, 'C20': C20}
+
+def gen_space_cases(rng):
+    from harness.corr_repr import GRID_KINDS, COLORS
+    from harness.codec import KIND_INDEX
+
+    while True:
+        kinds = rng.sample(range(9), rng.randint(1, 9))
+        if rng.random() < 0.8:
+            kinds = [k for k in kinds if GRID_KINDS[k].__name__ != 'Box'] or [0]
+        colors = rng.sample(range(1, 5), rng.randint(0, 4))
+        yield {'kind': 'space', 'kinds': sorted(kinds), 'colors': sorted(colors), 'h': rng.randint(2, 5), 'w': rng.randint(2, 5), 'enc': rng.choice(['default', 'no-overlap', 'compact']), 'seed': rng.randrange(2**31), 'obs': rng.random() < 0.5}
+
+
+def _space_objs(c):
+    from harness.corr_repr import GRID_KINDS, COLORS, objects_for
+
+    kinds = [GRID_KINDS[i] for i in c['kinds']]
+    colors = [COLORS[i] for i in c['colors']]
+    return kinds, colors
+
+
+class C15(Oracle):
+    prop = 'C15'
+
+    def gen(self, rng):
+        gs = gen_space_cases(rng)
+        ge = gen_env_cases(rng, p_random=0.3)
+        while True:
+            yield next(gs)
+            yield next(gs)
+            c = next(ge)
+            c['enc'] = rng.choice(['default', 'no-overlap', 'compact'])
+            c['actions'] = c['actions'][:15]
+            yield c
+
+    def check(self, c):
+        import numpy as np
+        from gym_gridverse.geometry import Shape
+        from gym_gridverse.gym import outer_space_to_gym_space
+        from gym_gridverse.observation import Observation
+        from gym_gridverse.grid_object import Hidden
+        from gym_gridverse.representations.observation_representations import make_observation_representation
+        from gym_gridverse.representations.state_representations import make_state_representation
+        from gym_gridverse.spaces import ObservationSpace, StateSpace
+        from harness.corr_repr import random_member_state
+
+        out = []
+
+        def check_rep(rep, obj, what):
+            try:
+                d = rep.convert(obj)
+            except Exception as e:
+                out.append(V(f'representation/{what}-convert-raises', f'{type(e).__name__}: {e} {c}'))
+                return
+            sp = rep.space
+            if list(d.keys()) != list(sp.keys()):
+                out.append(V(f'representation/{what}-keys', f'{c}'))
+                return
+            for k in d:
+                if not sp[k].contains(d[k]):
+                    out.append(V(f'representation/{what}-outside-declared-space', f'key {k} enc={c["enc"]} {c.get("file", c.get("kinds"))}'))
+            g = outer_space_to_gym_space(sp)
+            if not g.contains(d):
+                out.append(V(f'representation/{what}-outside-gym-space', f'enc={c["enc"]} {c.get("file", c.get("kinds"))}'))
+
+        if c['kind'] == 'space':
+            rng = random.Random(c['seed'])
+            kinds, colors = _space_objs(c)
+            h, w = c['h'], c['w']
+            if c['obs']:
+                w |= 1
+                osp = ObservationSpace(Shape(h, w), kinds, colors)
+                s = random_member_state(rng, h, w, kinds + [Hidden], colors, p_bad=0.0)
+                o = Observation(s.grid, s.agent)
+                if osp.contains(o):
+                    check_rep(make_observation_representation(c['enc'], osp), o, 'observation')
+            else:
+                ssp = StateSpace(Shape(h, w), kinds, colors)
+                if ssp.can_be_represented:
+                    s = random_member_state(rng, h, w, kinds, colors, p_bad=0.0)
+                    if ssp.contains(s):
+                        check_rep(make_state_representation(c['enc'], ssp), s, 'state')
+            return out
+        # trajectories of environments
+        env = env_of_case(c)
+        env.set_seed(c['seed'])
+        env.reset()
+        orep = make_observation_representation(c['enc'], env.observation_space)
+        srep = make_state_representation(c['enc'], env.state_space) if env.state_space.can_be_represented else None
+        for ai in c['actions']:
+            check_rep(orep, env.observation, 'observation')
+            if srep is not None:
+                check_rep(srep, env.state, 'state')
+            r, d = env.step(env.action_space.actions[ai])
+            if d:
+                env.reset()
+            if out:
+                break
+        return out
+
+
+class C16(Oracle):
+    prop = 'C16'
+
+    def gen(self, rng):
+        return gen_space_cases(rng)
+
+    def check(self, c):
+        import numpy as np
+        from gym_gridverse.geometry import Shape
+        from gym_gridverse.representations.observation_representations import make_observation_representation
+        from gym_gridverse.representations.state_representations import make_state_representation
+        from gym_gridverse.spaces import ObservationSpace, StateSpace
+        from gym_gridverse.grid_object import Color, Hidden, NoneGridObject
+        from harness.codec import dec_obj
+        from harness.corr_repr import objects_for, random_member_state
+
+        out = []
+        rng = random.Random(c['seed'])
+        kinds, colors = _space_objs(c)
+        h, w = c['h'], c['w']
+        enc = c['enc']
+        if c['obs']:
+            w |= 1
+            sp = ObservationSpace(Shape(h, w), kinds, colors)
+            rep = make_observation_representation(enc, sp)
+            extra = [Hidden, NoneGridObject]
+        else:
+            sp = StateSpace(Shape(h, w), kinds, colors)
+            if not sp.can_be_represented:
+                return out
+            rep = make_state_representation(enc, sp)
+            extra = [NoneGridObject]
+        gor = rep.representations['item'].grid_object_representation
+        members = [dec_obj(t) for t in objects_for(kinds, [Color.NONE] + colors)] + [k() for k in extra]
+        encs = [tuple(int(v) for v in gor.convert(o)) for o in members]
+        # lossless per object
+        for i, a in enumerate(members):
+            for j, b in enumerate(members):
+                if (encs[i] == encs[j]) != (a == b):
+                    out.append(V(f'encoding/{enc}-not-injective', f'{a!r} vs {b!r}: {encs[i]} {encs[j]} kinds={c["kinds"]}'))
+                if a == b and hash(a) != hash(b):
+                    out.append(V('object/equal-but-different-hash', f'{a!r} {b!r}'))
+        if enc == 'default':
+            for o, e in zip(members, encs):
+                if e != (o.type_index(), o.state_index, o.color.value):
+                    out.append(V('encoding/default-not-index-triple', f'{o!r} {e}'))
+        if enc == 'no-overlap':
+            t = {e[0] for e in encs}
+            s_ = {e[1] for e in encs}
+            cc = {e[2] for e in encs}
+            if t & s_ or t & cc or s_ & cc:
+                out.append(V('encoding/no-overlap-channels-overlap', f'kinds={c["kinds"]} colors={c["colors"]}'))
+        if enc == 'compact':
+            used = sorted({v for e in encs for v in e})
+            if used != list(range(len(used))):
+                out.append(V('encoding/compact-has-gaps', f'kinds={c["kinds"]} colors={c["colors"]}: {used}'))
+            t = {e[0] for e in encs}
+            s_ = {e[1] for e in encs}
+            cc = {e[2] for e in encs}
+            if t & s_ or t & cc or s_ & cc:
+                out.append(V('encoding/compact-channels-overlap', f'kinds={c["kinds"]}'))
+        # positional + agent marker + state-level injectivity on pairs
+        mk = lambda: random_member_state(rng, h, w, kinds + ([Hidden] if c['obs'] else []), colors, p_bad=0.0)  # noqa: E731
+        s1 = mk()
+        s2 = fast_copy(s1) if rng.random() < 0.3 else mk()
+        if rng.random() < 0.5:
+            # a single local difference
+            s2 = fast_copy(s1)
+            k = rng.randrange(4)
+            if k == 0:
+                s2.grid[rng.randrange(h), rng.randrange(w)] = rng.choice(members[: len(members) - len(extra)])
+            elif k == 1:
+                s2.agent.position = Position(rng.randrange(h), rng.randrange(w))
+            elif k == 2 and not c['obs']:
+                s2.agent.orientation = rng.choice(ORIENTS)
+            else:
+                s2.agent.grid_object = rng.choice(members)
+        if c['obs']:
+            from gym_gridverse.observation import Observation
+
+            s1.agent.orientation = O.F
+            s2.agent.orientation = O.F
+            x1, x2 = Observation(s1.grid, s1.agent), Observation(s2.grid, s2.agent)
+        else:
+            x1, x2 = s1, s2
+        if not sp.contains(x1) or not sp.contains(x2):
+            return out
+        d1, d2 = rep.convert(x1), rep.convert(x2)
+        same_rep = all(np.array_equal(d1[k], d2[k]) for k in d1)
+        same = x1.grid == x2.grid and x1.agent == x2.agent
+        if same_rep != same:
+            out.append(V(f'representation/{enc}-equal-iff-equal-fails', f'{enc_state(x1)} vs {enc_state(x2)} same_rep={same_rep} same={same}'))
+        if same and (hash(x1.grid) != hash(x2.grid) or hash(x1.agent) != hash(x2.agent)):
+            out.append(V('state/equal-but-different-hash', f'{enc_state(x1)}'))
+        for y in range(h):
+            for x in range(w):
+                if tuple(int(v) for v in d1['grid'][y, x]) != tuple(int(v) for v in gor.convert(x1.grid[y, x])):
+                    out.append(V('representation/not-positional', f'cell {(y, x)}'))
+                if int(d1['agent_id_grid'][y, x]) != int((y, x) == x1.agent.position.yx):
+                    out.append(V('representation/agent-marker', f'cell {(y, x)}'))
+        return out
+
+
+ORACLES = {'C18': C18, 'C08': C08, 'C09': C09, 'C10': C10, 'C11': C11, 'C12': C12, 'C05': C05, 'C06': C06, 'C07': C07, 'C04': C04, 'C20': C20, 'C15': C15, 'C16': C16}
